@@ -1112,6 +1112,8 @@ def _work(item):
                     results.append(Director(case, cfg).run(
                         lambda k, obs: obs["enabled"][rng.randrange(len(obs["enabled"]))] if obs["enabled"] else None))
                 _compare(part, "random", case, cfg, results, serial)
+        elif kind == "replay":
+            _replay_into(part, item["obj"])
         elif kind == "os":  # plain OS-scheduled runs, oracle only
             import random
 
@@ -1126,9 +1128,7 @@ def _work(item):
                               os_outcome=r["outcome"], os_workers=min(case["workers"], 9))
                     oracle(case, r, serial, "os", part)
                     if r["status"] == "hang":
-                        break
-                if len(part["failures"]) >= 3:
-                    break
+                        return dict(part)  # every further run would block for the whole timeout again
     except Exception as e:  # noqa: BLE001
         import traceback
 
@@ -1155,9 +1155,7 @@ def run(ctx: Ctx) -> None:
         "non-trivial when at least one scheduling decision was made; distinct by (configuration, label list); "
         "OS-scheduled runs are counted separately (os_* keys) and are distinct by (configuration, repetition)"
     )
-    for obj in load_corpus("C09"):
-        replay(ctx, obj)
-    items = []
+    items = [dict(kind="replay", obj=obj) for obj in load_corpus("C09")]
     # 1. exhaustive: every transition of the reachable state graph of the small configurations
     fixed = fixed_cases(thorough=not ctx.quick)
     max_states = ctx.pick(60000, 2000000)
@@ -1194,26 +1192,29 @@ def run(ctx: Ctx) -> None:
         ctx.merge(part)
 
 
-def replay(ctx: Ctx, obj: dict) -> None:
+def _replay_into(part, obj: dict) -> None:
     if obj.get("kind") == "unchecked-obligation":
         for d in obj.get("correspondence_disagreements", []):
             if isinstance(d.get("case"), dict) and "case" in d["case"]:
-                replay(ctx, {"case": d["case"]})
+                _replay_into(part, {"case": d["case"]})
         return
     case = obj.get("case", obj)
     if "case" in case:
         case = case["case"]
     labels = obj.get("labels") or (obj.get("case", {}) or {}).get("labels")
     mode = obj.get("mode") or (obj.get("case", {}) or {}).get("mode") or "controlled"
+    if mode not in ("os", "controlled"):
+        mode = "controlled"
     serial = serial_reference(case)
-    part = Part()
-    if mode == "os" or labels is None:
+    cfg = model_cfg(case)
+    if mode == "os" or labels is None or cfg is None:
         for rep in range(20):
             r = run_os(case, rep)
-            part.case(["os", case, rep])
+            part.case(["os", case, rep], os_mode=case["mode"])
             oracle(case, r, serial, "os", part)
+            if r["status"] == "hang":
+                return
     else:
-        cfg = model_cfg(case)
         it = iter([list(l) for l in labels])
 
         def chooser(k, obs):
@@ -1225,4 +1226,25 @@ def replay(ctx: Ctx, obj: dict) -> None:
 
         res = Director(case, cfg).run(chooser)
         _compare(part, "replay", case, cfg, [res], serial)
+
+
+def _isolated(item):
+    """Run one work item in a forked child: a run that deadlocks leaves blocked non-daemon pool threads behind,
+    which would keep this interpreter from exiting."""
+    import multiprocessing as mp
+
+    with mp.get_context("fork").Pool(1) as pool:
+        return pool.apply(_work, (item,))
+
+
+def replay(ctx: Ctx, obj: dict) -> None:
+    import logging
+
+    from harness.common import Infra
+
+    logging.getLogger("onnx_ir.external_data").setLevel(logging.ERROR)
+    part = _isolated(dict(kind="replay", obj=obj))
+    crash = part.get("extra", {}).get("crash")
+    if crash:
+        raise Infra("replay crashed: " + crash)
     ctx.merge(part)
